@@ -17,10 +17,26 @@ Abstract cases (table spec as in C06: `id:N | rw:N:SEQ | txt:TABLE`):
                                 Optimize), `W:seq` (OptimizeTable in place), `T:dna` (Translate), `S:i,j` (swap two entries' letters in place): a result must
                                 depend on the table as it is NOW, not on what the instance held earlier
 
+  pick  CHOICES SEEDS           weightedrand.NewChooser + Pick run directly, pointwise against `newChooser` / `pick`
+  freqmix SPEC protein calls    per-letter codon counts over one mixed protein (STATISTICAL, every letter judged)
+  pairs SPEC XY reps calls      counts of adjacent codon pairs (STATISTICAL: consecutive picks are independent)
+  replay SPEC protein           one Optimize call replayed EXACTLY on the model: the harness finds the clock seed
+
 `Optimize` reseeds math/rand from the clock, so an output cannot be predicted; correspondence = the real
 output is a MEMBER of the model's set of possible outputs (status as the model says; position by position the
 codon is an item of the chooser the model builds for that residue).
 -/
+
+def dedupChars (l : Str) : Str := l.foldl (fun acc x => if acc.contains x then acc else acc ++ [x]) []
+
+/-- "L:ITEM=w,ITEM=w;K:…": for every distinct residue that has a chooser, the chooser's data in the order the
+model (stable sort by weight) leaves them -/
+def choosersText (t : Table) (p : Str) : String :=
+  let m := chooserMap stableSort t
+  ";".intercalate ((dedupChars p).filterMap fun aa =>
+    match mapGet m [aa] with
+    | some ch => some (String.ofList [aa] ++ ":" ++ ",".intercalate (ch.data.map fun c => String.ofList c.item ++ "=" ++ toString c.weight))
+    | none => none)
 
 def render (f : List String) : List String :=
   match f with
@@ -29,6 +45,15 @@ def render (f : List String) : List String :=
   | ["freq", spec, l, per, calls] => ["optfreq", spec, l, per, calls]
   | ["rp", len, seed, spec] => ["randprot", len, seed, spec]
   | "hist" :: spec :: n :: steps => "opthist" :: spec :: n :: steps
+  | ["pick", choices, seeds] => ["pick", choices, seeds]
+  | ["freqmix", spec, p, calls] => ["optfreqmix", spec, p, calls]
+  | ["pairs", spec, unit, reps, calls] =>
+    ["optpairs", spec, String.ofList ((List.replicate (natOfStr reps) unit.toList).flatten), calls]
+  | ["replay", spec, p] =>
+    -- the choosers the MODEL builds (stable sort), per distinct residue, sent to the harness for the seed search
+    match tableOf spec "" with
+    | some (t, _) => ["optreplay", spec, p, choosersText t p.toList]
+    | none => ["bad"]
   | _ => ["bad"]
 
 /-! ### model side -/
@@ -70,7 +95,8 @@ def unencReason (t : Table) (p : Str) : String :=
   match p.find? fun aa => (specEligible t [aa]).isEmpty with
   | none => "enc"
   | some aa =>
-    if t.aminoAcids.any (·.letter == [aa]) then "unenc-zero-share"
+    if t.aminoAcids.any (fun a => a.letter == [aa] && (a.codons.map (·.weight)).foldl (· + ·) 0 > 0) then "unenc-all-below-share"
+    else if t.aminoAcids.any (·.letter == [aa]) then "unenc-zero-usage"
     else if t.aminoAcids.any (·.letter == [aa.toUpper]) then "unenc-lowercase"
     else "unenc-absent"
 
@@ -86,6 +112,13 @@ def runsOf : List String → List Run
 
 def kindTag : TKind → String
   | .dflt _ => "default" | .rw _ => "reweighted" | .txt => "text"
+
+/-- for a default id the table the harness process holds must be the regenerated one (as a map): the process
+has not re-weighted a shared default table (C08's known aliasing) -/
+def tableSame (k : TKind) (reported : String) : Bool :=
+  match k with
+  | .dflt n => canonTable (parseTable reported) == canonTable (getCodonTable n)
+  | _ => true
 
 /-- the property's demand on one run of an encodable protein -/
 def runOk (t : Table) (k : TKind) (p : Str) (r : Run) : Bool :=
@@ -128,6 +161,7 @@ def judgeOpt (kind spec : String) (p : Str) (n : Nat) (out : List String) : Verd
     | none => { corr := false, judge := none, cls := "bad-spec" }
     | some (t, k) =>
       let (corr, j, tag, detail) := judgeRuns kind t k p n (runsOf rest)
+      let corr := corr && tableSame k reported
       { corr := corr, judge := if decide (WF t) then some j else none,
         cls := (if p.length ≤ 1 then "triv:" else "") ++ (if kind == "union" then "stat:union/" else "opt/") ++ tag,
         detail := detail }
@@ -194,7 +228,7 @@ def judgeFreq (spec : String) (letter : Str) (per calls : Nat) (out : List Strin
       let total := per * calls
       let items := match eligible t letter with | some l => l | none => []
       let mx := (items.map (·.2)).foldl (· + ·) 0
-      let corr := bad == "0" && (cs.map (·.2)).foldl (· + ·) 0 == total && cs.all fun (c, _) => items.any (·.1 == c)
+      let corr := bad == "0" && (cs.map (·.2)).foldl (· + ·) 0 == total && (cs.all fun (c, _) => items.any (·.1 == c)) && tableSame k reported
       let elig := specEligible t letter
       let weightOf (c : Str) : Int := match items.find? (·.1 == c) with | some it => it.2 | none => 0
       let band (c : Str) : Bool :=
@@ -226,7 +260,7 @@ def judgeRp (length : Int) (spec : String) (out : List String) : Verdict :=
       -- model: the status is draw independent, the letters are some draws' letters
       let mst := match proteinSequence length (fun _ => 0) with | .ok _ => "ok" | .err => "err" | .panic => "panic"
       let ms := modelStatus t p
-      let corr := pst == mst && (pst != "ok" || (proteinShape length p && ost == ms && (ost != "ok" || modelMember t p dna.toList)))
+      let corr := tableSame k reported && pst == mst && (pst != "ok" || (proteinShape length p && ost == ms && (ost != "ok" || modelMember t p dna.toList)))
       let run : Run := { st := ost, dna := dna.toList, tst := tst, tv := tv.toList }
       let j := if length ≤ 2 then pst == "err"
         else pst == "ok" && proteinShape length p &&
@@ -237,6 +271,155 @@ def judgeRp (length : Int) (spec : String) (out : List String) : Verdict :=
   | st :: _ => { corr := false, judge := none, cls := "request-" ++ st }
   | [] => { corr := false, judge := none, cls := "no-reply" }
 
+/-! ### the weighted pick itself, run against weightedrand (op `pick`) -/
+
+def parseItems (s : String) : List (Str × Int) :=
+  (splitNonEmpty s ",").map fun e =>
+    match e.splitOn "=" with
+    | [c, n] => (c.toList, n.toInt?.getD 0)
+    | _ => (e.toList, 0)
+
+def isPermOf (a b : List (Str × Int)) : Bool := a.length == b.length && a.all (fun x => a.count x == b.count x)
+
+def sortedByWeight : List (Str × Int) → Bool
+  | a :: b :: rest => decide (a.2 ≤ b.2) && sortedByWeight (b :: rest)
+  | _ => true
+
+/-- `pick CHOICES SEEDS`: the chooser `weightedrand.NewChooser` builds (data order, totals, max — read with
+reflect) must be the model's `newChooser` for the sorter "whatever order the library left" (which must be a
+permutation of the input sorted by weight), and for every seed the pair (r, item) must satisfy
+`pick ch r = ok item`.  The judge uses the spec reading: `item` is the choice whose interval of running totals
+contains `r`. -/
+def judgePick (choices : String) (out : List String) : Verdict :=
+  match out with
+  | ["ok", version, data, totals, mx, draws] =>
+    let cs := parseItems choices
+    let d := parseItems data
+    let asChoices (l : List (Str × Int)) : List Choice := l.map fun x => { item := x.1, weight := x.2 }
+    let ch := newChooser (fun _ => asChoices d) (asChoices cs)
+    let structOk := isPermOf d cs && sortedByWeight d &&
+      (splitNonEmpty totals ",").map (fun x => x.toInt?.getD 0) == ch.totals && mx.toInt?.getD 0 == ch.max
+    let stable := asChoices d == stableSort (asChoices cs)
+    let pairs := (splitNonEmpty draws ",").map fun e =>
+      match e.splitOn "=" with
+      | [r, it] => (natOfStr r, it.toList)
+      | _ => (0, e.toList)
+    let corrDraws := pairs.all fun (r, it) =>
+      if it == "panic".toList && r == 0 then ch.max ≤ 0 else pick ch r == .ok it
+    -- spec: cumulative weight before the item < r ≤ cumulative weight including it (items distinct)
+    let specOk := pairs.all fun (r, it) =>
+      let before := ((d.takeWhile (·.1 != it)).map (·.2)).foldl (· + ·) 0
+      match d.find? (·.1 == it) with
+      | some e => decide (before < (r : Int)) && decide ((r : Int) ≤ before + e.2) && decide (1 ≤ r) && decide ((r : Int) ≤ ch.max)
+      | none => false
+    let distinct := (cs.map (·.1)).all fun x => (cs.map (·.1)).count x == 1
+    let dom := version == "v0.2.1" && distinct && cs.all (fun x => decide (0 ≤ x.2)) && decide (0 < ch.max)
+    { corr := structOk && corrDraws, judge := if dom then some (structOk && specOk) else none,
+      cls := (if version == "v0.2.1" then "pick/" else "WEIGHTEDRAND-VERSION-" ++ version ++ "/") ++
+             (if stable then "stable-order" else "other-order") ++ "/" ++ toString cs.length ++ "choices",
+      detail := if structOk && corrDraws && specOk then "" else
+        "model chooser: totals " ++ toString ch.totals ++ " max " ++ toString ch.max ++ (if structOk then "" else " STRUCTURE DIFFERS") }
+  | st :: _ => { corr := false, judge := some false, cls := "pick/request-" ++ st, detail := "the pick op failed: weightedrand no longer has the shape of v0.2.1?" }
+  | [] => { corr := false, judge := none, cls := "no-reply" }
+
+/-! ### frequencies over a mixed protein, and pairs of adjacent picks (statistical) -/
+
+def band (total : Nat) (pr : Float) (cnt : Nat) : Bool :=
+  let mean := Float.ofNat total * pr
+  let sd := Float.sqrt (Float.ofNat total * pr * (1 - pr))
+  Float.abs (Float.ofNat cnt - mean) ≤ 7 * sd + 1
+
+def itemsOf (t : Table) (l : Str) : List (Str × Int) := match eligible t l with | some x => x | none => []
+
+def shareOf (items : List (Str × Int)) (c : Str) : Float :=
+  let mx := (items.map (·.2)).foldl (· + ·) 0
+  match items.find? (·.1 == c) with
+  | some it => Float.ofInt it.2 / Float.ofInt mx
+  | none => 0
+
+/-- `freqmix SPEC protein calls`: every letter of one mixed protein is judged: counts of each eligible codon within
+7 sigma of N_letter · w/max, nothing else ever emitted -/
+def judgeFreqMix (spec : String) (p : Str) (calls : Nat) (out : List String) : Verdict :=
+  match out with
+  | ["ok", reported, counts, bad] =>
+    match tableOf spec reported with
+    | none => { corr := false, judge := none, cls := "bad-spec" }
+    | some (t, k) =>
+      let per := (splitNonEmpty counts ";").map fun e =>
+        match e.splitOn ":" with
+        | [l, cs] => (l.toList, parseCounts cs)
+        | _ => (e.toList, [])
+      let letters := dedupChars p
+      let okLetter (aa : Char) : Bool × Bool :=
+        let items := itemsOf t [aa]
+        let total := calls * p.count aa
+        let cs := match per.find? (·.1 == [aa]) with | some e => e.2 | none => []
+        let support := (cs.all fun (c, _) => items.any (·.1 == c)) && (cs.map (·.2)).foldl (· + ·) 0 == total
+        let elig := specEligible t [aa]
+        let j := (cs.all fun (c, _) => elig.contains c) && sameSet elig (items.map (·.1)) &&
+          elig.all fun c => band total (shareOf items c) (match cs.find? (·.1 == c) with | some e => e.2 | none => 0)
+        (support, j)
+      let res := letters.map okLetter
+      let corr := bad == "0" && tableSame k reported && res.all (·.1) && per.length == letters.length
+      let j := bad == "0" && res.all (·.2)
+      { corr := corr, judge := if decide (WF t) && specEncodable t p && !p.isEmpty then some j else none,
+        cls := "stat:freqmix/" ++ kindTag k ++ "/" ++ toString letters.length ++ "letters",
+        detail := if corr && j then "" else "letters out of band or support: " ++
+          String.ofList ((letters.zip res).filterMap fun (l, r) => if r.1 && r.2 then none else some l) }
+  | st :: _ => { corr := false, judge := none, cls := "request-" ++ st }
+  | [] => { corr := false, judge := none, cls := "no-reply" }
+
+/-- `pairs SPEC XY reps calls`: the protein is XY repeated; the codon pairs at positions (2i, 2i+1) are independent
+draws, so the count of (c1, c2) lies within 7 sigma of N · share(c1) · share(c2) -/
+def judgePairs (spec : String) (unit : Str) (reps calls : Nat) (out : List String) : Verdict :=
+  match out, unit with
+  | ["ok", reported, counts, bad], [x, y] =>
+    match tableOf spec reported with
+    | none => { corr := false, judge := none, cls := "bad-spec" }
+    | some (t, k) =>
+      let cs := parseCounts counts
+      let total := reps * calls
+      let ix := itemsOf t [x]
+      let iy := itemsOf t [y]
+      let split (c : Str) : Str × Str := (c.take 3, c.drop 3)
+      let support := (cs.all fun (c, _) => ix.any (·.1 == (split c).1) && iy.any (·.1 == (split c).2)) &&
+        (cs.map (·.2)).foldl (· + ·) 0 == total
+      let j := ix.all fun a => iy.all fun b =>
+        band total (shareOf ix a.1 * shareOf iy b.1) (match cs.find? (·.1 == a.1 ++ b.1) with | some e => e.2 | none => 0)
+      let corr := bad == "0" && tableSame k reported && support
+      { corr := corr, judge := if decide (WF t) && !ix.isEmpty && !iy.isEmpty then some (bad == "0" && support && j) else none,
+        cls := "stat:pairs/" ++ kindTag k ++ "/" ++ (if x == y then "same-letter" else "two-letters"),
+        detail := if corr && j then "" else "pair counts outside the independence band" }
+  | st :: _, _ => { corr := false, judge := none, cls := "request-" ++ st }
+  | [], _ => { corr := false, judge := none, cls := "no-reply" }
+
+/-! ### exact replay of one Optimize call (the harness finds the clock seed) -/
+
+/-- `replay SPEC protein`: the harness reports the draws `rs` of the seed (found in the clock window of the call)
+under which the model's choosers reproduce the real output; here the Lean model is run on those draws:
+`optimize stableSort t p rs` must return exactly the real DNA. -/
+def judgeReplay (spec : String) (p : Str) (out : List String) : Verdict :=
+  match out with
+  | ["ok", reported, st, dna, found, _off, rs] =>
+    match tableOf spec reported with
+    | none => { corr := false, judge := none, cls := "bad-spec" }
+    | some (t, k) =>
+      let ms := modelStatus t p
+      let draws := (splitNonEmpty rs ",").map natOfStr
+      let run : Run := { st := st, dna := dna.toList, tst := "ok", tv := p }
+      let replayed := found == "1" && draws.length == p.length &&
+        decide (DrawsOK (chooserMap stableSort t) p draws) &&
+        optimize stableSort t p draws == some (.ok dna.toList)
+      let corr := tableSame k reported && st == ms && (st != "ok" || replayed)
+      let enc := specEncodable t p
+      let j := if enc && !p.isEmpty then runOk t k p run else st == "err"
+      { corr := corr, judge := if decide (WF t) then some j else none,
+        cls := "replay/" ++ kindTag k ++ "/" ++ (if st != "ok" then "no-run" else if found == "1" then "seed-found" else "SEED-NOT-FOUND"),
+        detail := if corr && j then "" else "model status " ++ ms ++ "; replay of the model on the reported draws " ++
+          (if replayed then "reproduces" else "DOES NOT reproduce") ++ " the output" }
+  | st :: _ => { corr := false, judge := none, cls := "request-" ++ st }
+  | [] => { corr := false, judge := none, cls := "no-reply" }
+
 def judge (f out : List String) : Verdict :=
   match f with
   | ["opt", spec, p, n] => judgeOpt "opt" spec p.toList (natOfStr n) out
@@ -244,6 +427,10 @@ def judge (f out : List String) : Verdict :=
   | ["freq", spec, l, per, calls] => judgeFreq spec l.toList (natOfStr per) (natOfStr calls) out
   | ["rp", len, _, spec] => judgeRp (len.toInt?.getD 0) spec out
   | "hist" :: _ :: n :: steps => judgeHist (natOfStr n) steps out
+  | ["pick", choices, _] => judgePick choices out
+  | ["freqmix", spec, p, calls] => judgeFreqMix spec p.toList (natOfStr calls) out
+  | ["pairs", spec, unit, reps, calls] => judgePairs spec unit.toList (natOfStr reps) (natOfStr calls) out
+  | ["replay", spec, p] => judgeReplay spec p.toList out
   | _ => { corr := false, judge := none, cls := "bad-case", detail := "bad case" }
 
 def driver : PropDriver := { render, judge }
